@@ -341,6 +341,182 @@ theorem C05_edit_is_local (kids sub : Kids) (ks k : Key) (v0 : VId) (hks : looku
    fun k2 h => ⟨lookup_addKey_other h _ _ _, lookup_removeKey_other h _⟩,
    lookup_atKey_same _ hks, lookup_atKey_same _ hks⟩
 
+/-! ### a deep edit seen from the SIMULATION root: lifting along a path of static keys and component keys -/
+
+/-- one step down the live tree: a literal key of a static manager, or the key of a component at a dynamic level -/
+inductive Step
+  | lit (ks : Key)
+  | dyn (lv : Level) (k : Key)
+deriving DecidableEq, Repr
+
+/-- apply `f` to the dictionary of the manager the path leads to -/
+def editTree : List Step → (Kids → Kids) → Kids → Kids
+  | [], f, kids => f kids
+  | .lit ks :: rest, f, kids => atKey ks (editTree rest f) kids
+  | .dyn _ k :: rest, f, kids => atKey k (editTree rest f) kids
+
+/-- apply `g` to the inventory of the component the path leads to (literal keys stay inside the same component) -/
+def editInv : List Step → (Inv → Inv) → Inv → Inv
+  | [], g, inv => g inv
+  | .lit _ :: rest, g, inv => editInv rest g inv
+  | .dyn lv k :: rest, g, inv =>
+    match findChild lv k inv.children with
+    | some (c, inv') => inv.addChild lv k c (editInv rest g inv')
+    | none => inv
+
+/-- the level at which the CURRENT component's inventory changes: the first component step, else the edited level -/
+def touched : List Step → Level → Level
+  | [], lvEdit => lvEdit
+  | .lit _ :: rest, lvEdit => touched rest lvEdit
+  | .dyn lv _ :: _, _ => lv
+
+def siblingsBlindB (S : Schema) (fuel : Nat) (edges : List Edge) (ks : Key) (lv : Level) : Bool :=
+  edges.all (fun e => e.1 == ks || (match e.2.2 with
+    | .sub m'' => !seesB S fuel m'' lv
+    | .leaf => true))
+
+/-- the path exists in the schema and the inventory, ends at manager `mEnd`, and at every literal step the sibling
+sub-managers cannot see the level that changes (executable) -/
+def pathOKB (S : Schema) (fuel : Nat) (lvEdit : Level) : String → Inv → List Step → String → Bool
+  | m, _, [], mEnd => m == mEnd
+  | m, inv, .lit ks :: rest, mEnd =>
+    match S.mgr m with
+    | some (.static edges) =>
+      match lookupE ks edges with
+      | some (_, .sub m') => siblingsBlindB S fuel edges ks (touched rest lvEdit) && pathOKB S fuel lvEdit m' inv rest mEnd
+      | _ => false
+    | _ => false
+  | m, inv, .dyn lv k :: rest, mEnd =>
+    match S.mgr m with
+    | some (.dynamic lv' _ _) =>
+      lv' == lv && (match findChild lv k inv.children with
+        | some (c, inv') => pathOKB S fuel lvEdit c inv' rest mEnd
+        | none => false)
+    | _ => false
+
+theorem siblings_blind (S : Schema) (fuel : Nat) (edges : List Edge) (ks : Key) (lv : Level)
+    (h : siblingsBlindB S fuel edges ks lv = true) :
+    ∀ k' vs' m'', k' ≠ ks → lookupE k' edges = some (vs', .sub m'') → seesB S fuel m'' lv = false := by
+  intro k' vs' m'' hne hl
+  simp only [siblingsBlindB, List.all_eq_true] at h
+  have h3 := h _ (lookupE_mem hl)
+  simp only [Bool.or_eq_true, beq_iff_eq, Bool.not_eq_true'] at h3
+  rcases h3 with h3 | h3
+  · exact absurd h3 hne
+  · exact h3
+
+theorem atKey_eq_addKey {k : Key} {kids : Kids} {v : VId} {sub : Kids} (f : Kids → Kids)
+    (h : lookup k kids = some (v, .node sub)) : atKey k f kids = addKey k v (.node (f sub)) kids := by
+  induction kids with
+  | nil => simp [lookup] at h
+  | cons e rest ih =>
+    obtain ⟨k', v', t'⟩ := e
+    by_cases hk : k = k'
+    · subst hk
+      simp only [lookup, if_true, Option.some.injEq, Prod.mk.injEq] at h
+      obtain ⟨rfl, rfl⟩ := h
+      simp [atKey, addKey]
+    · simp only [lookup, hk, if_false] at h
+      simp [atKey, addKey, hk, ih h]
+
+/-- the inventory edit along a path changes, in the inventory it starts from, only entries of the `touched` level -/
+theorem editInv_other (g : Inv → Inv) (lvEdit : Level)
+    (hg : ∀ inv lv' k', lv' ≠ lvEdit → findChild lv' k' (g inv).children = findChild lv' k' inv.children) :
+    ∀ (path : List Step) (inv : Inv) (lv' : Level) (k' : Key), lv' ≠ touched path lvEdit →
+      findChild lv' k' (editInv path g inv).children = findChild lv' k' inv.children := by
+  intro path
+  induction path with
+  | nil => intro inv lv' k' h; exact hg inv lv' k' h
+  | cons st rest ih =>
+    intro inv lv' k' h
+    cases st with
+    | lit ks => exact ih inv lv' k' h
+    | dyn lv k =>
+      simp only [touched] at h
+      simp only [editInv]
+      cases hf : findChild lv k inv.children with
+      | none => rfl
+      | some ci =>
+        obtain ⟨c, inv'⟩ := ci
+        simp only [Inv.addChild, Inv.children]
+        exact findChild_addChildL_other (fun hh => h hh.1) _ _ _
+
+/-- DEEP EDIT: if the path from manager `m` (e.g. the simulation's root manager) down to the root manager `mEnd` of the
+component being edited is sound (`pathOKB`), the local edit keeps `mEnd`'s instances (`hend`, e.g. from
+`C05_add_component_keeps_inst`) and changes that component's inventory only at level `lvEdit`, then the WHOLE tree is an
+instance for the whole inventory after the edit. -/
+theorem C05_deep_edit_keeps_inst (S : Schema) (vn : VId → Validator) (fuel : Nat) (lvEdit : Level) (mEnd : String)
+    (f : Kids → Kids) (g : Inv → Inv)
+    (hend : ∀ inv kids, Inst S vn mEnd inv kids → Inst S vn mEnd (g inv) (f kids))
+    (hg : ∀ inv lv' k', lv' ≠ lvEdit → findChild lv' k' (g inv).children = findChild lv' k' inv.children) :
+    ∀ (path : List Step) (m : String) (inv : Inv) (kids : Kids), Inst S vn m inv kids →
+      pathOKB S fuel lvEdit m inv path mEnd = true →
+      Inst S vn m (editInv path g inv) (editTree path f kids) := by
+  intro path
+  induction path with
+  | nil =>
+    intro m inv kids h hp
+    simp only [pathOKB, beq_iff_eq] at hp
+    subst hp
+    exact hend inv kids h
+  | cons st rest ih =>
+    intro m inv kids h hp
+    cases st with
+    | lit ks =>
+      simp only [pathOKB] at hp
+      cases hm : S.mgr m with
+      | none => simp [hm] at hp
+      | some M =>
+        cases M with
+        | dynamic lv ty vs => simp [hm] at hp
+        | static edges =>
+          simp only [hm] at hp
+          cases hk : lookupE ks edges with
+          | none => simp [hk] at hp
+          | some vt =>
+            obtain ⟨vs0, tgt⟩ := vt
+            cases tgt with
+            | leaf => simp [hk] at hp
+            | sub m' =>
+              simp only [hk, Bool.and_eq_true] at hp
+              obtain ⟨hblind, hrest⟩ := hp
+              simp only [editInv, editTree]
+              refine Inst_static_edit S vn hm h ks vs0 m' hk _ _ ?_ ?_
+              · intro v sub _ hsub
+                exact ih m' inv sub hsub hrest
+              · intro k' vs' m'' hne hl lv' hs k2
+                have hns := not_sees_of_seesB_false S fuel m'' _ (siblings_blind S fuel edges ks _ hblind k' vs' m'' hne hl)
+                have hlv : lv' ≠ touched rest lvEdit := fun he => hns (he ▸ hs)
+                exact editInv_other g lvEdit hg rest inv lv' k2 hlv
+    | dyn lv k =>
+      simp only [pathOKB] at hp
+      cases hm : S.mgr m with
+      | none => simp [hm] at hp
+      | some M =>
+        cases M with
+        | static edges => simp [hm] at hp
+        | dynamic lv' ty vs =>
+          simp only [hm, Bool.and_eq_true, beq_iff_eq] at hp
+          obtain ⟨hlv, hrest⟩ := hp
+          subst hlv
+          cases hf : findChild lv' k inv.children with
+          | none => simp [hf] at hrest
+          | some ci =>
+            obtain ⟨c, inv'⟩ := ci
+            simp only [hf] at hrest
+            simp only [editInv, editTree, hf]
+            have h' := h
+            cases h with
+            | @static _ _ _ edges hm' _ _ _ => rw [hm] at hm'; cases hm'
+            | @dynamic _ _ _ lv2 ty2 vs2 hm' hkey hrec =>
+              rw [hm] at hm'
+              cases hm'
+              obtain ⟨v, kids', hlk, hvn⟩ := hkey k c inv' hf
+              have hchild := hrec k c inv' v kids' hf hlk
+              have hnew := ih c inv' kids' hchild hrest
+              rw [atKey_eq_addKey _ hlk]
+              exact Inst_dynamic_add S vn hm h' k c _ v _ hvn hnew
+
 /-! ### the regenerated schema meets the side conditions at every dynamic site -/
 
 /-- for every static manager and every edge of it that leads to a dynamic manager of level `lv`: no OTHER sub-manager edge of
@@ -437,5 +613,31 @@ example : dispatchK envAll (atKey "service" (removeKey "ftp-server") exPcKidsIns
 /-- the other routes of the node are untouched by the install -/
 example : dispatchK envAll exPcKidsInstalled ["service", "dns-client", "stop"] 3 =
     dispatchK envAll exPcKids ["service", "dns-client", "stop"] 3 := by decide +kernel
+
+/-! non-vacuity of `C05_deep_edit_keeps_inst` on the REGENERATED schema: the same install seen from the SIMULATION root
+(`network` / `node` / "pc" of `exInv`, the inventory with a computer, a firewall and a router) -/
+def exPath : List Step := [.lit "network", .lit "node", .dyn .node "pc"]
+
+theorem exDeepInstall_inst : Inst schema exVn rootMgr
+    (editInv exPath (fun inv => inv.addChild .service "ftp-server" "FTPServer" (.mk [])) exInv)
+    (editTree exPath (atKey "service" (addKey "ftp-server" (exVid []) (.node exSvcKids))) exKids) :=
+  C05_deep_edit_keeps_inst schema exVn 8 .service "Computer" _ _
+    (fun inv kids h =>
+      C05_add_component_keeps_inst schema exVn (c := "Computer") (edges := exPcEdges) (by decide +kernel) h
+        "service" [.nodeIsOn] "Node._service_request_manager" (by decide +kernel) (lv := .service) (ty := .str) (vs := [])
+        (by decide +kernel) 8
+        (frame_of_framedB schema 8 C05_gen_dynamic_sites.1 (c := "Computer") (edges := exPcEdges) (by decide +kernel)
+          (by decide +kernel) "service" [.nodeIsOn] "Node._service_request_manager" (by decide +kernel)
+          (lv := .service) (ty := .str) (vs := []) (by decide +kernel))
+        "ftp-server" "FTPServer" (.mk []) (exVid []) exSvcKids (by decide +kernel) exSvcKids_inst)
+    (fun inv lv' k' h => by
+      simp only [Inv.addChild, Inv.children]
+      exact findChild_addChildL_other (fun hh => h hh.1) _ _ _)
+    exPath rootMgr exInv exKids exKids_inst (by decide +kernel)
+
+example : dispatchK envAll exKids ["network", "node", "pc", "service", "ftp-server", "stop"] 0 = .unreachable 4 := by
+  decide +kernel
+example : (dispatchK envAll (editTree exPath (atKey "service" (addKey "ftp-server" (exVid []) (.node exSvcKids))) exKids)
+    ["network", "node", "pc", "service", "ftp-server", "stop"] 0).isReached = true := by decide +kernel
 
 end Primaite.Schema
